@@ -272,6 +272,10 @@ Nodes4 == {"w", "a", "b", "c"}
 Nodes5 == {"w", "a", "b", "c", "d"}
 Gens2  == {<<1, 1, 0>>, <<0, 0, 1>>}                 \* rot90+shift, pure translation (non-commuting)
 Gens3  == {<<1, 1, 0>>, <<0, 0, 1>>, <<2, 0, 2>>}
+\* two matrices with the SAME rotation that differ by a small translation: re-updates of one edge that change
+\* only a few entries by a few units (replayed with frames placed ~10^8 away from the origin)
+GensK  == {<<1, 1, 0>>, <<1, -1, 2>>}
+Nodes3 == {"w", "a", "b"}
 Geoms1 == {"g1"}
 Geoms0 == {}
 =============================================================================
